@@ -131,10 +131,22 @@ func buildProvider(c Cell) (core.Provider, string, error) {
 	var conf map[string]any
 	var path string
 	switch c.Kind {
-	case "uri", "uripost", "raw", "jsonline-lines", "jsonline-array", "raw-bigbody", "uripost-bigbody", "jsonline-bigline":
-		typ, data := httpFile(c.Kind, c.Entries)
+	case "uri", "uripost", "raw", "jsonline-lines", "jsonline-array", "raw-bigbody", "uripost-bigbody", "jsonline-bigline",
+		"uri+chosen-empty", "uripost+chosen-empty", "raw+chosen-all", "jsonline-lines+chosen-all", "jsonline-array+chosen-empty":
+		typ, data := httpFile(strings.Split(c.Kind, "+")[0], c.Entries)
 		path = vkit.WriteMem(data)
 		conf = map[string]any{"type": typ, "file": path}
+		// a chosencases option that filters nothing out — written as an empty list, or naming
+		// every tag of the file — leaves limit and passes as they are
+		if strings.HasSuffix(c.Kind, "+chosen-empty") {
+			conf["chosencases"] = []any{}
+		} else if strings.HasSuffix(c.Kind, "+chosen-all") {
+			var all []any
+			for i := 0; i < c.Entries; i++ {
+				all = append(all, fmt.Sprintf("tag%d", i))
+			}
+			conf["chosencases"] = all
+		}
 		if c.Kind == "jsonline-bigline" {
 			conf["maxammosize"] = 200000
 		}
@@ -457,12 +469,13 @@ func runEngine(res *vkit.Result, c Cell, p core.Provider, exp int, watchdog time
 	return ""
 }
 
-var kinds = []string{"uri", "uripost", "raw", "jsonline-lines", "jsonline-array", "grpc/json", "http/scenario", "grpc/scenario", "json", "json-inline", "json-padded", "json-queue2", "raw-bigbody", "uripost-bigbody", "grpc/json-bigline", "jsonline-bigline"}
+var kinds = []string{"uri", "uripost", "raw", "jsonline-lines", "jsonline-array", "grpc/json", "http/scenario", "grpc/scenario", "json", "json-inline", "json-padded", "json-queue2", "raw-bigbody", "uripost-bigbody", "grpc/json-bigline", "jsonline-bigline",
+	"uri+chosen-empty", "uripost+chosen-empty", "raw+chosen-all", "jsonline-lines+chosen-all", "jsonline-array+chosen-empty"}
 
 func cells(kind string) []Cell {
 	var out []Cell
 	preloads := []bool{false}
-	if kind == "uri" || kind == "uripost" || kind == "raw" || strings.HasPrefix(kind, "jsonline") || strings.HasSuffix(kind, "-bigbody") {
+	if kind == "uri" || kind == "uripost" || kind == "raw" || strings.HasPrefix(kind, "jsonline") || strings.HasSuffix(kind, "-bigbody") || strings.Contains(kind, "+chosen-") {
 		preloads = []bool{false, true}
 	}
 	consumers := []int{1, 3}
